@@ -174,7 +174,7 @@ def taprootChecked (S : Bytes → Bytes) (tx : Tx) (i : Nat) (prevouts : List Tx
     else pure []
   let st ← Gen.SigHash.serialized_spend_type extFlag (if annexPresent then 1 else 0)
   let own ← if acp then
-      -- `prevouts[input_index]`: an IndexError when the list is short (no length check on this path)
+      -- `prevouts[input_index]`: an IndexError were the list short (`taproot` has refused that already)
       match prevouts[i]? with
       | none => throw .foreign
       | some po => do
@@ -196,7 +196,10 @@ def taproot (S : Bytes → Bytes) (tx : Tx) (i : Int) (prevouts : List TxOut) (h
     (annex msgExt : Bytes) (pre : Option Precomputed) : R Bytes := do
   forAll (fun o => assertCAmount o.value) prevouts
   let i ← assertVin tx i
-  if !intMem ht Gen.SigHash.SIG_HASH_TYPES then throw .value
+  -- one spent output per input, asked up front on every path (ANYONECANPAY with NONE or SINGLE builds no
+  -- PrecomputedTxData and indexes prevouts directly)
+  if prevouts.length ≠ tx.vin.length then throw .value
+  else if !intMem ht Gen.SigHash.SIG_HASH_TYPES then throw .value
   else if tapSingle ht.toNat ∧ i ≥ tx.vout.length then throw .value
   else taprootChecked S tx i prevouts ht.toNat extFlag annex msgExt pre
 
